@@ -144,7 +144,7 @@ noncomputable def e1 (T1 : ℝ) : ℝ :=
   (if T1 = (0 : ℝ) then (0 : ℝ) else (Real.sqrt (QG.Gen.Relaxation.tg / T1)))
 
 noncomputable def ep (T2 : ℝ) (T1 : ℝ) : ℝ :=
-  (if T2 = (0 : ℝ) then (0 : ℝ) else (Real.sqrt (((1 : ℝ) / 2) * (((Real.sqrt (QG.Gen.Relaxation.tg / T2)) ^ 2) - (((QG.Gen.Relaxation.e1 T1) ^ 2) / (2 : ℝ))))))
+  (if T2 = (0 : ℝ) then (0 : ℝ) else (Real.sqrt (((1 : ℝ) / 2) * ((QG.Gen.Relaxation.tg / T2) - ((if T1 ≠ (0 : ℝ) then (QG.Gen.Relaxation.tg / T1) else (0 : ℝ)) / (2 : ℝ))))))
 
 structure Samples where
   W : ℝ
@@ -180,7 +180,7 @@ noncomputable def e1 (T1 : ℝ) : ℝ :=
   (if T1 = (0 : ℝ) then (0 : ℝ) else (Real.sqrt (QG.Gen.SingleQubit.tg / T1)))
 
 noncomputable def ep (T2 : ℝ) (T1 : ℝ) : ℝ :=
-  (if T2 = (0 : ℝ) then (0 : ℝ) else (Real.sqrt (((1 : ℝ) / 2) * (((Real.sqrt (QG.Gen.SingleQubit.tg / T2)) ^ 2) - (((QG.Gen.SingleQubit.e1 T1) ^ 2) / (2 : ℝ))))))
+  (if T2 = (0 : ℝ) then (0 : ℝ) else (Real.sqrt (((1 : ℝ) / 2) * ((QG.Gen.SingleQubit.tg / T2) - ((if T1 ≠ (0 : ℝ) then (QG.Gen.SingleQubit.tg / T1) else (0 : ℝ)) / (2 : ℝ))))))
 
 noncomputable def det1 (F : ℝ → ℝ) (theta : ℝ) : ℝ :=
   (QG.Spec.integ F QG.Gen.g3 theta (1 : ℝ))
@@ -379,13 +379,13 @@ noncomputable def e1_ctr (T1_ctr : ℝ) : ℝ :=
   (if T1_ctr = (0 : ℝ) then (0 : ℝ) else (Real.sqrt (QG.Gen.CR.tg / T1_ctr)))
 
 noncomputable def ep_ctr (T2_ctr : ℝ) (T1_ctr : ℝ) : ℝ :=
-  (if T2_ctr = (0 : ℝ) then (0 : ℝ) else (Real.sqrt (((1 : ℝ) / 2) * (((Real.sqrt (QG.Gen.CR.tg / T2_ctr)) ^ 2) - (((QG.Gen.CR.e1_ctr T1_ctr) ^ 2) / (2 : ℝ))))))
+  (if T2_ctr = (0 : ℝ) then (0 : ℝ) else (Real.sqrt (((1 : ℝ) / 2) * ((QG.Gen.CR.tg / T2_ctr) - ((if T1_ctr ≠ (0 : ℝ) then (QG.Gen.CR.tg / T1_ctr) else (0 : ℝ)) / (2 : ℝ))))))
 
 noncomputable def e1_trg (T1_trg : ℝ) : ℝ :=
   (if T1_trg = (0 : ℝ) then (0 : ℝ) else (Real.sqrt (QG.Gen.CR.tg / T1_trg)))
 
 noncomputable def ep_trg (T2_trg : ℝ) (T1_trg : ℝ) : ℝ :=
-  (if T2_trg = (0 : ℝ) then (0 : ℝ) else (Real.sqrt (((1 : ℝ) / 2) * (((Real.sqrt (QG.Gen.CR.tg / T2_trg)) ^ 2) - (((QG.Gen.CR.e1_trg T1_trg) ^ 2) / (2 : ℝ))))))
+  (if T2_trg = (0 : ℝ) then (0 : ℝ) else (Real.sqrt (((1 : ℝ) / 2) * ((QG.Gen.CR.tg / T2_trg) - ((if T1_trg ≠ (0 : ℝ) then (QG.Gen.CR.tg / T1_trg) else (0 : ℝ)) / (2 : ℝ))))))
 
 noncomputable def det1 (t_cr : ℝ) (theta : ℝ) : ℝ :=
   ((((QG.Gen.CR.a t_cr) * theta) - ((QG.Gen.CR.a t_cr) * (Real.sin theta))) / ((2 : ℝ) * theta))
